@@ -12,7 +12,7 @@ parts stay opaque symbols.
 """
 import re
 
-from .src import Inconclusive, render, render_pat
+from .src import Inconclusive, render, render_pat, walk
 from .quote import parse_template, QUOTE_MACROS
 
 MAX_DEPTH = 12
@@ -371,6 +371,8 @@ class Evaluator:
         self.invoked = set()
         self.visited = set()
         self.depth = 0
+        self.impl_stack = []
+        self.inline_helpers = True
         self.max_depth = max_depth
         self.summaries = set()
         self.fn_index = {}
@@ -430,10 +432,13 @@ class Evaluator:
         """Evaluate fn `fi` with arg values (dict name->V)."""
         env = dict(args)
         self.visited.add(("fn", fi.line, 0))
+        self.impl_stack.append(fi.impl.get("self_ty") if isinstance(getattr(fi, "impl", None), dict) else None)
         try:
             return self.eval_block(fi.body, env)
         except ReturnEx as r:
             return r.value
+        finally:
+            self.impl_stack.pop()
 
     def sym_params(self, fi, prefix=""):
         """Typed symbolic values for every parameter of fn fi."""
@@ -760,7 +765,8 @@ class Evaluator:
         fi = self.fn_index.get(name)
         if fi is None:
             raise Unsupported("unknown fn " + name)
-        if name in self.opaque or (self.shallow and name not in self.transparent) or (self.inline_files is not None and fi.file not in self.inline_files and name not in self.transparent):
+        if name in self.opaque or (self.shallow and name not in self.transparent and not (self.inline_helpers and self.small_pure(fi))) or \
+                (self.inline_files is not None and fi.file not in self.inline_files and name not in self.transparent and not (self.inline_helpers and self.small_pure(fi))):
             return self.summary(name, None, args, fi)
         try:
             return self.inline(fi, None, args)
@@ -769,6 +775,28 @@ class Evaluator:
                 raise
             self.summaries.add(f"auto:{name} ({u})")
             return self.summary(name, None, args, fi)
+
+    def small_pure(self, fi):
+        """A helper outside the inlined files that is nevertheless evaluated in place: straight-line / branching code without loops,
+        token templates or parsing (so that extracting a helper function does not change what the analysis sees)."""
+        c = getattr(fi, "_small_pure", None)
+        if c is None:
+            c = True
+            n = 0
+            for x in walk(fi.body):
+                n += 1
+                if x["k"] in ("For", "While", "Loop") or (x["k"] == "Macro" and x.get("last") not in ("matches", "unreachable", "panic", "todo", "format", "vec")):
+                    c = False
+                    break
+            sig = fi.node["sig"]
+            if n > 160 or any(re.search(r"ParseStream|ParseBuffer|&\s*mut\b|&\s*'\w+\s+mut\b", i.get("ty") or "") for i in sig["inputs"] if not i.get("self")) \
+                    or re.search(r"\bResult\b", sig.get("output") or "") or any(i.get("self") and i.get("mut") for i in sig["inputs"]):
+                c = False
+            try:
+                fi._small_pure = c
+            except Exception:
+                pass
+        return c
 
     def inline(self, fi, recv, args):
         if self.depth >= self.max_depth:
@@ -787,6 +815,7 @@ class Evaluator:
                 ai += 1
         self.depth += 1
         self.visited.add(("fn", fi.line, 0))
+        self.impl_stack.append(fi.impl.get("self_ty") if isinstance(fi.impl, dict) else None)
         try:
             try:
                 return self.eval_block(fi.body, env)
@@ -794,6 +823,7 @@ class Evaluator:
                 return r.value
         finally:
             self.depth -= 1
+            self.impl_stack.pop()
 
     def method(self, recv, name, args, node, env):
         # repo-defined methods first
@@ -807,8 +837,9 @@ class Evaluator:
         if tyname and (tyname, name) in self.method_index:
             fi = self.method_index[(tyname, name)]
             unit_enum = tyname in self.types.enums and all(x[3] == "unit" for x in self.types.enums[tyname])
-            if name in self.opaque or f"{tyname}::{name}" in self.opaque or (self.shallow and not unit_enum and name not in self.transparent) or \
-                    (self.inline_files is not None and fi.file not in self.inline_files and not unit_enum and name not in self.transparent):
+            if name in self.opaque or f"{tyname}::{name}" in self.opaque or (self.shallow and not unit_enum and name not in self.transparent and not (self.inline_helpers and self.small_pure(fi))) or \
+                    (self.inline_files is not None and fi.file not in self.inline_files and not unit_enum and name not in self.transparent
+                     and not (self.inline_helpers and self.small_pure(fi))):
                 return self.summary(name, recv, args, fi)
             saved = (dict(self.decisions),)
             try:
@@ -1284,6 +1315,18 @@ class Evaluator:
                     continue
                 self.last_arm = a
                 return self._branch(a["body"], env2, env)
+        if isinstance(v, SymObj) and e["arms"]:
+            # a value of a type the evaluator does not know (an external enum): which arm is taken is one finite decision
+            idx = self.decide(v.path + " matches arm", list(range(len(e["arms"]))))
+            a = e["arms"][idx]
+            env2 = dict(env)
+            for q in walk(a["pat"]):
+                if q["k"] == "PIdent" and q["name"][:1].islower():
+                    env2[q["name"]] = SymObj(f"{v.path}#arm{idx}.{q['name']}", ("named", "?"))
+            if "guard" in a:
+                self.truth(self.eval(a["guard"], env2))
+            self.last_arm = a
+            return self._branch(a["body"], env2, env)
         raise Unsupported("no arm matched " + vkey(v))
 
     def resolve_str(self, v, pats):
@@ -1355,6 +1398,8 @@ class Evaluator:
                     return StructV(name, {str(i): a for i, a in enumerate(args)})
                 raise Unsupported("call " + name)
             en = segs[-2]
+            if en == "Self" and getattr(self, "impl_stack", None) and self.impl_stack[-1]:
+                en = re.sub(r"<.*", "", self.impl_stack[-1]).strip()
             if en == "Member" and name in ("Named", "Unnamed"):
                 return Tag(name, args, "Member")
             vs = self.types.enum_variants(en)
@@ -1374,8 +1419,9 @@ class Evaluator:
                 return SymObj("Span::" + name + "()", ("named", "Span"))
             if (en, name) in self.method_index:
                 fi = self.method_index[(en, name)]
-                if name in self.opaque or f"{en}::{name}" in self.opaque or (self.shallow and name not in self.transparent) or \
-                        (self.inline_files is not None and fi.file not in self.inline_files and name not in self.transparent):
+                if name in self.opaque or f"{en}::{name}" in self.opaque or (self.shallow and name not in self.transparent and not (self.inline_helpers and self.small_pure(fi))) or \
+                        (self.inline_files is not None and fi.file not in self.inline_files and name not in self.transparent
+                         and not (self.inline_helpers and self.small_pure(fi))):
                     return self.summary(f"{en}::{name}", None, args, fi)
                 try:
                     return self.inline(fi, None, args)
@@ -1504,6 +1550,26 @@ class Evaluator:
             return UNIT
         # over-approximation: the body is analysed once with a symbolic element; variables it assigns are havocked
         it = self.eval(e["iter"], env)
+        if getattr(self, "concrete_iters", False) and isinstance(it, (ListV, IterV)):
+            # small-scope mode: the loop runs over the known elements with the ordinary semantics of break / continue / return
+            for x in list(it.elems):
+                env2 = dict(env)
+                if not self.bind(e["pat"], x, env2):
+                    raise Unsupported("for pattern bind")
+                mark = len(self.assign_log)
+                try:
+                    self.eval_block(e["body"], env2)
+                except ContinueEx:
+                    pass
+                except BreakEx:
+                    for name, v in self.assign_log[mark:]:
+                        if name in env:
+                            env[name] = v
+                    break
+                for name, v in self.assign_log[mark:]:
+                    if name in env:
+                        env[name] = v
+            return UNIT
         env2 = dict(env)
         elem = SymObj("elem(" + vkey(it) + ")", it.ty[1] if isinstance(it, SymObj) and it.ty[0] in ("vec", "iter") and len(it.ty) > 1 and isinstance(it.ty[1], tuple) else ("named", "?"))
         self.bind(e["pat"], elem, env2)
